@@ -190,6 +190,41 @@ pub fn run(ctx: &Ctx) -> Outcome {
   });
   for (i, r) in r4.into_iter().enumerate() { evals += 1; nontrivial += 1; if let Some((c, d)) = r { fails.push((c, d, json!({"raw_index": i}))); } }
   o.cov("raw_record_sequences", total_raw as u64);
+  // (ii-d) all-or-nothing under a virtual keyboard with room for only part of a batch: a one-page pipe pre-filled so that
+  // exactly `room` bytes fit; the writer must either write the whole batch (and say Ok) or nothing of it (and say Err)
+  let sz = std::mem::size_of::<libc::input_event>();
+  let mut near_cases = 0u64;
+  for n in 1..=(if q { 20usize } else { 40 }) { for room_recs in 0..=(n + 2) { for extra in [0usize, 7] {
+    let room = room_recs * sz + extra;
+    let p = Pipe::new();
+    if unsafe { libc::fcntl(p.w, libc::F_SETPIPE_SZ, 4096) } < 0 || room > 4096 { continue; }
+    let junk = vec![0xEEu8; 4096 - room];
+    if !junk.is_empty() { let w = unsafe { libc::write(p.w, junk.as_ptr() as *const libc::c_void, junk.len()) }; if w as usize != junk.len() { continue; } }
+    let batch: Vec<Event> = (0..n).map(|i| { let k = boundary[i % boundary.len()]; if (i / boundary.len()) % 2 == 0 { Event::Pressed(k) } else { Event::Released(k) } }).collect();
+    let mut w = DevInputWriter::verif_from_fd(p.w);
+    let res = w.send(&batch);
+    let all = p.drain();
+    let got = &all[junk.len().min(all.len())..];
+    evals += 1; nontrivial += 1; near_cases += 1;
+    let need = (n + 1) * sz;
+    let ok = if need <= room { res.is_ok() && got.len() == need } else { res.is_err() && got.is_empty() };
+    if !ok && !fails.iter().any(|f| f.0 == "batch-partly-written-when-the-device-has-little-room") {
+      fails.push(("batch-partly-written-when-the-device-has-little-room", format!("a batch of {} events ({} bytes with its SYN_REPORT) sent to a device with room for {} bytes: send returned {:?} and {} bytes arrived ({:?}); a batch that fits must arrive whole with Ok, one that does not fit must fail with nothing of it written", n, need, room, res.as_ref().map(|_| ()).map_err(|e| format!("{}", e)), got.len(), decode(got)), json!({"scenario": "little-room", "events": n, "room_bytes": room})));
+    }
+  } } }
+  o.cov("batches_against_a_device_with_little_room", near_cases);
+  // (v) reports of many records through the REAL driver's send path (Engine R, DESIGN 4.3): a key that produces ten keys,
+  // release-all batches of 7..12 keys at a tablet-mode change - each batch must arrive as one report
+  {
+    let r = crate::engine_r::run_family(ctx, "C18");
+    o.cov("real_descriptor_tier", json!({"what": "the unmodified RealDriver + loop over socket pairs and a pipe, stepped; scenarios whose steps produce large batches; oracle = per step exactly the mapper's batches, each as records + one SYN_REPORT", "scenarios": r.runs, "writes_to_devices": r.steps, "distinct_observations": r.distinct_outputs.len(), "note": r.note}));
+    evals += r.runs; nontrivial += r.runs;
+    for ((prop, clause), (count, detail, art)) in &r.viols {
+      if prop == "C18" { fails.push(("real-driver-batch-not-one-report", detail.clone(), art.clone())); let _ = (clause, count); }
+      else { println!("NOTE property=C18: a real-driver scenario of this check shows a discrepancy that belongs to {} ({}): {}", prop, clause, truncate(detail, 300)); }
+    }
+    if let Some(e) = &r.machinery { o.machinery_error = Some(e.clone()); }
+  }
   o.cov("evaluations", evals);
   o.cov("distinct_nontrivial", nontrivial);
   o.cov("known_key_codes", codes.len() as u64);
@@ -198,7 +233,7 @@ pub fn run(ctx: &Ctx) -> Outcome {
   o.cov("read_sequences", seqs.len() as u64);
   o.cov("read_sequences_with_foreign_records", skipped_kinds);
   o.cov("exhaustive", true);
-  o.cov("rule", format!("(i) every key code KeyCode::from_u16 knows x {{press, release}} as a one-event batch; (ii) every batch of length 0..={} over {} boundary codes x {{press, release}}; (ii-b) long alternating batches of n events for n around every power of two up to 1025; (ii-c) one to three failed writes (full pipe) followed by a batch on the same or on a second writer; (iii) every sequence of length 0..={} over 9 record kinds (valid press/release, value 2/-1/3, EV_SYN, EV_MSC, EV_KEY with an unknown code, EV_SW) followed by a sentinel press; (iv) raw records of every event type 0..=0x1f x 6 codes x 4 values, alone, before and between key records (thorough: all ordered pairs). All inputs are distinct by construction; non-trivial = single-code batches (each a distinct code/value), multi-event or empty batches, and read sequences containing at least one record the reader must skip.", maxlen, boundary.len(), maxseq));
+  o.cov("rule", format!("(i) every key code KeyCode::from_u16 knows x {{press, release}} as a one-event batch; (ii) every batch of length 0..={} over {} boundary codes x {{press, release}}; (ii-b) long alternating batches of n events for n around every power of two up to 1025; (ii-c) one to three failed writes (full pipe) followed by a batch on the same or on a second writer; (ii-d) batches of 1..=20 (thorough 40) events against a one-page pipe with room for 0..=n+2 records (and 7 bytes more): all of the batch with Ok, or nothing of it with Err; (v) large batches through the real driver's send path on real descriptors (Engine R); (iii) every sequence of length 0..={} over 9 record kinds (valid press/release, value 2/-1/3, EV_SYN, EV_MSC, EV_KEY with an unknown code, EV_SW) followed by a sentinel press; (iv) raw records of every event type 0..=0x1f x 6 codes x 4 values, alone, before and between key records (thorough: all ordered pairs). All inputs are distinct by construction; non-trivial = single-code batches (each a distinct code/value), multi-event or empty batches, and read sequences containing at least one record the reader must skip.", maxlen, boundary.len(), maxseq));
   let sample_bytes = { let p = Pipe::new(); let mut w = DevInputWriter::verif_from_fd(p.w); w.send(&vec![Event::Pressed(KeyCode::A)]).ok(); p.drain().iter().map(|b| format!("{:02x}", b)).collect::<Vec<_>>().join("") };
   let sample_read = format!("{:?}", check_read_sequence(&[Kind::AutoRepeat, Kind::Syn, Kind::Press]));
   o.cov("samples", json!([{"batch": ["Pressed(A)"], "bytes": sample_bytes}, {"read_sequence": ["AutoRepeat", "Syn", "Press"], "check": sample_read}]));
